@@ -65,6 +65,9 @@ def _range(a):
 
 def compatible(a, b, nins):
     """DESIGN 3.1 well-formedness of two atoms of one modification set."""
+    if a["op"] == "scope" or b["op"] == "scope":
+        o = b if a["op"] == "scope" else a
+        return o["op"] == "scope" or not o.get("proxy")
     if a["b"] != b["b"]:
         return True
     if a.get("proxy") or b.get("proxy"):
@@ -90,7 +93,9 @@ def mod_sets(spec, atoms, max_size, min_size=0, orders=False, filt=None):
             if filt and not filt(sel):
                 continue
             if orders == "same-offset" and r > 1:
-                keys = [(x["b"], x["k"]) for x in sel]
+                keys = [(x["b"], x["k"]) if x["op"] != "scope" else ("*", 0) for x in sel]
+                if any(x["op"] == "scope" for x in sel) and any(x["op"] != "scope" and x["k"] == 0 for x in sel):
+                    keys = keys + keys  # a scope registration meets another modification at offset 0: permute
                 if len(set(keys)) == len(keys):
                     yield sel
                     continue
@@ -120,6 +125,8 @@ def retag(mods, base=100):
                     j += 1
                 p2.append(pt)
             m2["p"] = p2
+        elif m["op"] == "scope":
+            m2["base"] = base + 16 * mid
         elif m["op"] in ("ins", "rep") and isinstance(m["p"], dict):
             m2["p"] = {"bytes": [(base + 16 * mid + j) & 0xFF for j in range(len(m["p"]["bytes"]))]}
         out.append(m2)
